@@ -20,6 +20,7 @@ import (
 type sysThing struct {
 	name string
 	sys  bool
+	vip  bool // has child-store data
 }
 
 type sysModel struct{ things map[string]sysThing }
@@ -43,12 +44,16 @@ func (m *sysModel) Render() *dump.Tree {
 			b.Values["isSystem"] = world.EncBool(true)
 		}
 		t.Ensure("root", "indexes", "things", "name").Values[th.name] = []byte(id)
+		if th.vip {
+			t.Ensure("root", "things", id, "vip").Values["rank"] = world.EncInt64(7)
+		}
 	}
 	return t
 }
 
 type sysScenario struct {
 	store *world.Store
+	vip   *world.Store // plain child store: the constraint must hold for operations routed through it as well
 	ids   []string
 	ops   []explore.Op
 }
@@ -61,6 +66,9 @@ func newSysScenario() *sysScenario {
 	nameSym := sc.store.AddSymbol("name", 4)
 	sc.store.AddUniqueIndex(nameSym)
 	sc.store.AddConstraint(boltz.NewSystemEntityEnforcementConstraint(sc.store))
+	sc.vip = world.NewStore(&world.Spec{Parent: sc.store, ChildPath: []string{"vip"}, Ext: true, Fields: []world.Field{
+		{Name: "name", Kind: world.KString}, {Name: "rank", Kind: world.KInt64P, Child: true}}})
+	sc.store.GrantSymbols(sc.vip)
 	sc.buildOps()
 	return sc
 }
@@ -70,6 +78,7 @@ func (sc *sysScenario) InitDb(db *boltz.DbImpl) error {
 	return db.Update(nil, func(ctx boltz.MutateContext) error {
 		h := &errorz.ErrorHolderImpl{}
 		sc.store.InitializeIndexes(ctx.Tx(), h)
+		sc.vip.InitializeIndexes(ctx.Tx(), h)
 		return h.GetError()
 	})
 }
@@ -77,6 +86,9 @@ func (sc *sysScenario) NewModel() explore.Model             { return &sysModel{t
 func (sc *sysScenario) Ops() []explore.Op                   { return sc.ops }
 func (sc *sysScenario) Context(_ []int) boltz.MutateContext { return explore.OrdinaryContext() }
 func (sc *sysScenario) Classify(err error) string {
+	if err == errSkip {
+		return "skip"
+	}
 	if err != nil && strings.Contains(err.Error(), "non-system context") {
 		return "system"
 	}
@@ -97,7 +109,7 @@ func (sc *sysScenario) Normalize(t *dump.Tree) *dump.Tree {
 }
 
 func (sc *sysScenario) rec(id, name string, sys bool) *world.Rec {
-	r := world.NewRec("things", id).With("name", name)
+	r := world.NewRec("things", id).With("name", name).With("rank", int64(7))
 	r.IsSystem = sys
 	return r
 }
@@ -121,88 +133,109 @@ func (sc *sysScenario) buildOps() {
 	}
 	cn := map[bool]string{true: "SYSTEM-ctx", false: "ordinary-ctx"}
 	for _, id := range sc.ids {
-		for _, system := range []bool{false, true} {
-			id, system := id, system
-			for _, name := range []string{"A", "B"} {
-				for _, flag := range []bool{false, true} {
-					name, flag := name, flag
-					sc.ops = append(sc.ops, explore.Op{
-						Name: fmt.Sprintf("create(%s,name=%s,isSystem=%v)@%s", id, name, flag, cn[system]),
-						Do: func(ctx boltz.MutateContext) error {
-							return sc.store.Create(ctxOf(system, ctx), sc.rec(id, name, flag))
-						},
-						Apply: func(mm explore.Model) []string {
-							m := mm.(*sysModel)
-							if _, ok := m.things[id]; ok {
-								return []string{"exists"}
-							}
-							var errs []string
-							if m.nameTaken(id, name) {
-								errs = append(errs, "dup")
-							}
-							if flag && !system {
-								errs = append(errs, "system")
-							}
-							if errs != nil {
-								return errs
-							}
-							m.things[id] = sysThing{name: name, sys: flag}
-							return []string{"ok"}
-						},
-					})
-					for _, patch := range []bool{false, true} {
-						patch := patch
-						var checker boltz.FieldChecker
-						label := "update"
-						if patch {
-							checker = boltz.MapFieldChecker{"name": struct{}{}, "isSystem": struct{}{}}
-							label = "patch[name,isSystem]"
-						}
+		for _, via := range []string{"things", "vip"} {
+			via := via
+			store := sc.store
+			if via == "vip" {
+				store = sc.vip
+			}
+			for _, system := range []bool{false, true} {
+				id, system := id, system
+				for _, name := range []string{"A", "B"} {
+					for _, flag := range []bool{false, true} {
+						name, flag := name, flag
 						sc.ops = append(sc.ops, explore.Op{
-							Name: fmt.Sprintf("%s(%s,name=%s,isSystem=%v)@%s", label, id, name, flag, cn[system]),
+							Name: fmt.Sprintf("create@%s(%s,name=%s,isSystem=%v)@%s", via, id, name, flag, cn[system]),
 							Do: func(ctx boltz.MutateContext) error {
-								return sc.store.Update(ctxOf(system, ctx), sc.rec(id, name, flag), checker)
+								if via == "vip" && sc.store.IsEntityPresent(ctx.Tx(), id) {
+									return errSkip
+								}
+								return store.Create(ctxOf(system, ctx), sc.rec(id, name, flag))
 							},
 							Apply: func(mm explore.Model) []string {
 								m := mm.(*sysModel)
-								cur, ok := m.things[id]
-								if !ok {
-									return []string{"notfound"}
+								if _, ok := m.things[id]; ok {
+									if via == "vip" {
+										return []string{"skip"}
+									}
+									return []string{"exists"}
 								}
 								var errs []string
-								if cur.sys && !system {
-									errs = append(errs, "system")
-								}
-								if name != cur.name && m.nameTaken(id, name) {
+								if m.nameTaken(id, name) {
 									errs = append(errs, "dup")
+								}
+								if flag && !system {
+									errs = append(errs, "system")
 								}
 								if errs != nil {
 									return errs
 								}
-								// the flag is fixed at creation: an update never changes it
-								m.things[id] = sysThing{name: name, sys: cur.sys}
+								m.things[id] = sysThing{name: name, sys: flag, vip: via == "vip"}
 								return []string{"ok"}
 							},
 						})
+						for _, patch := range []bool{false, true} {
+							patch := patch
+							var checker boltz.FieldChecker
+							label := "update"
+							if patch {
+								checker = boltz.MapFieldChecker{"name": struct{}{}, "isSystem": struct{}{}}
+								label = "patch[name,isSystem]"
+							}
+							sc.ops = append(sc.ops, explore.Op{
+								Name: fmt.Sprintf("%s@%s(%s,name=%s,isSystem=%v)@%s", label, via, id, name, flag, cn[system]),
+								Do: func(ctx boltz.MutateContext) error {
+									return store.Update(ctxOf(system, ctx), sc.rec(id, name, flag), checker)
+								},
+								Apply: func(mm explore.Model) []string {
+									m := mm.(*sysModel)
+									cur, ok := m.things[id]
+									if !ok || (via == "vip" && !cur.vip) {
+										return []string{"notfound"}
+									}
+									var errs []string
+									if cur.sys && !system {
+										errs = append(errs, "system")
+									}
+									if name != cur.name && m.nameTaken(id, name) {
+										errs = append(errs, "dup")
+									}
+									if errs != nil {
+										return errs
+									}
+									// the flag is fixed at creation: an update never changes it
+									m.things[id] = sysThing{name: name, sys: cur.sys, vip: cur.vip}
+									return []string{"ok"}
+								},
+							})
+						}
 					}
 				}
+				sc.ops = append(sc.ops, explore.Op{
+					Name: fmt.Sprintf("delete@%s(%s)@%s", via, id, cn[system]),
+					Do: func(ctx boltz.MutateContext) error {
+						if via == "vip" && sc.store.IsEntityPresent(ctx.Tx(), id) && !sc.vip.IsEntityPresent(ctx.Tx(), id) {
+							return errSkip
+						}
+						return store.DeleteById(ctxOf(system, ctx), id)
+					},
+					Apply: func(mm explore.Model) []string {
+						m := mm.(*sysModel)
+						cur, ok := m.things[id]
+						if !ok {
+							return []string{"notfound"}
+						}
+						if via == "vip" && !cur.vip {
+							return []string{"skip"}
+						}
+						if cur.sys && !system {
+							return []string{"system"}
+						}
+						delete(m.things, id)
+						return []string{"ok"}
+					},
+				})
 			}
-			sc.ops = append(sc.ops, explore.Op{
-				Name: fmt.Sprintf("delete(%s)@%s", id, cn[system]),
-				Do:   func(ctx boltz.MutateContext) error { return sc.store.DeleteById(ctxOf(system, ctx), id) },
-				Apply: func(mm explore.Model) []string {
-					m := mm.(*sysModel)
-					cur, ok := m.things[id]
-					if !ok {
-						return []string{"notfound"}
-					}
-					if cur.sys && !system {
-						return []string{"system"}
-					}
-					delete(m.things, id)
-					return []string{"ok"}
-				},
-			})
 		}
 	}
 }
@@ -215,6 +248,9 @@ func (sc *sysScenario) Invariant(tx *bbolt.Tx, mm explore.Model) error {
 		e, found, err := sc.store.FindById(tx, id)
 		if err != nil || !found {
 			return fmt.Errorf("FindById(%s): found=%v err=%v", id, found, err)
+		}
+		if _, vfound, _ := sc.vip.FindById(tx, id); vfound != th.vip {
+			return fmt.Errorf("child store FindById(%s) found=%v, model says %v", id, vfound, th.vip)
 		}
 		if e.IsSystem != th.sys || e.F["name"] != th.name {
 			return fmt.Errorf("entity %s read back as name=%v isSystem=%v, model says name=%s isSystem=%v", id, e.F["name"], e.IsSystem, th.name, th.sys)
@@ -237,6 +273,24 @@ func C16(tier string) int {
 	rep.Set("rule", "BFS to closure over {create,update,patch,delete} x {system,ordinary context} x isSystem flag x 1..2 operations per transaction; oracle = complete image + read-back + error class")
 	sc := newSysScenario()
 	n := len(sc.Ops())
-	runE1(rep, sc, explore.Config{Programs: explore.Pairs(n)})
+	if tier == "quick" {
+		runE1(rep, sc, explore.Config{Programs: sysQuickPrograms(sc)})
+	} else {
+		runE1(rep, sc, explore.Config{Programs: explore.Pairs(n)})
+	}
 	return rep.Finish()
+}
+
+// sysQuickPrograms: all single operations, and all pairs whose first operation is a create (the constraint needs an existing entity).
+func sysQuickPrograms(sc *sysScenario) [][]int {
+	progs := explore.SingleOps(len(sc.Ops()))
+	for i, a := range sc.Ops() {
+		if !strings.HasPrefix(a.Name, "create@") {
+			continue
+		}
+		for j := range sc.Ops() {
+			progs = append(progs, []int{i, j})
+		}
+	}
+	return progs
 }
